@@ -10,6 +10,13 @@ for l in open("/verif/properties.jsonl"):
     d = json.loads(l)
     if d["id"] == prop: P = d
 sid = f"{prop}g{rnd}"
+import glob, re
+done = []
+for f in sorted(glob.glob(f"/verif/refactors/{prop}-g*-NOTES.md")):
+    done += re.findall(r"^## change\d\.diff - (.*)$", open(f).read(), re.M)
+already = ""
+if done:
+    already = "\nChanges of this kind that others have ALREADY written for this property - choose something different in kind and place:\n" + "".join(f"  - {d}\n" for d in done)
 print(f"""You are helping test a static verification tool for the Go library rulego/streamsql (an in-memory SQL stream
 processing engine). The tool must stay SILENT on code that still satisfies a property, also when that code EVOLVES.
 I need TWO independent, realistic changes a maintainer could commit to the code that carries the property below -
@@ -23,6 +30,7 @@ Your scratch checkout is the git worktree /tmp/feat/{sid} (already created; work
 The property (JSON; read the code it is anchored in):
 {json.dumps(P, indent=1, ensure_ascii=False)}
 
+{already}
 Rules for each change:
 * It touches the functions that implement the property's mechanisms (see anchors), 30-150 changed lines, and is the
   kind of commit that appears in this repository's history: e.g. avoid an allocation on the hot path, replace a
